@@ -286,6 +286,35 @@ fn api_func(name: &str, args: &[SimpleExpr]) -> Option<FunctionCall> {
         "least" => Some(Func::least(args.to_vec())),
         "coalesce" => Some(Func::coalesce(args.to_vec())),
         "random" if args.is_empty() => Some(Func::random()),
+        "round" if args.len() == 2 => Some(Func::round_with_precision(args[0].clone(), args[1].clone())),
+        // DATE_TRUNC('<unit>', e): the unit is spelled by Display for PgDateTruncUnit
+        "pg12" => match args {
+            [SimpleExpr::Value(Value::String(Some(u))), e] => {
+                use sea_query::PgDateTruncUnit::*;
+                let unit = match u.as_str() {
+                    "microseconds" => Microseconds,
+                    "milliseconds" => Milliseconds,
+                    "second" => Second,
+                    "minute" => Minute,
+                    "hour" => Hour,
+                    "day" => Day,
+                    "week" => Week,
+                    "month" => Month,
+                    "quarter" => Quarter,
+                    "year" => Year,
+                    "decade" => Decade,
+                    "century" => Century,
+                    "millennium" => Millennium,
+                    _ => return None,
+                };
+                Some(PgFunc::date_trunc(unit, e.clone()))
+            }
+            _ => None,
+        },
+        // JSON_BUILD_OBJECT(k1, v1, k2, v2, ..) from a list of pairs
+        "pg9" if args.len() % 2 == 0 => Some(PgFunc::json_build_object(
+            args.chunks(2).map(|p| (p[0].clone(), p[1].clone())).collect::<Vec<_>>(),
+        )),
         // Postgres full-text constructors: (expr, Option<regconfig>) - the configuration comes first in the call
         "pg0" | "pg1" | "pg2" | "pg3" | "pg4" => {
             let (e, cfg) = match args {
